@@ -300,7 +300,7 @@ func checkFlattenOne(prop, tier string, seed int64) int {
 		if prop == "C04" && r.Rec != nil {
 			var fr flattenRec
 			json.Unmarshal(r.Rec, &fr)
-			sig = "C04:error." + run.args.Opts.Mode() + ":" + normErr(fr.Err)
+			sig = "C04:error." + run.args.Opts.Mode() + ":" + scenFeature(run.c) + ":" + normErr(fr.Err)
 		}
 		sig += nameClassSig(run.c)
 		replay := run.c.SaveReplay(prop, "flatten", run.args, map[string]string{"diag.txt": strings.Join(diags[run.tid], "\n") + "\n" + r.Detail, "record.json": string(r.Rec)})
@@ -395,4 +395,16 @@ func normErr(e string) string {
 		e = e[:100]
 	}
 	return e
+}
+
+// scenFeature names the holder kind and collision pattern of a TLC-enumerated scenario (part of a violation's identity).
+func scenFeature(c *Case) string {
+	if c.Source != "tlc" || c.Note == "" {
+		return "gen"
+	}
+	f := strings.Split(strings.Fields(c.Note)[0], ",")
+	if len(f) < 5 {
+		return "scen"
+	}
+	return "h=" + f[2] + ",c=" + f[4]
 }
